@@ -109,6 +109,12 @@ def main():
               msg("A", fld("Emb", 1, "message", type="Emb", embed=True), fld("X", 2, "string")))
     for prop in ["C03", "C04", "C05", "C06", "C08", "C09", "C19", "C20"]:
         write(prop, "probe-F4", [variant(f4, config(["A"]))], INNER)
+    # F12: a nested / element message whose only fields are messages without fields held by value:
+    # CopyTo declares obj for it and never uses it
+    write("C01", "probe-F12", [variant(file(msg("E"), msg("S", fld("e", 1, "message", type="E", nullable=False)),
+                                            msg("A", fld("s", 1, "message", type="S"), fld("m", 2, "message", "map", type="S"),
+                                                fld("l", 3, "message", "repeated", type="S", nullable=False), fld("x", 4, "string"))),
+                                       config(["A"]))])
 
 if __name__ == "__main__":
     main()
